@@ -1,17 +1,19 @@
 #!/bin/sh
-# tools/run_refactorings.sh [id ...]: apply each harmless refactoring to a scratch copy and run ALL checks; print the non-zero exits
+# tools/run_refactorings.sh [id ...]: apply each harmless refactoring to a scratch copy and run ALL checks (4 at a time); print the non-zero exits
 V="$(cd "$(dirname "$0")/.." && pwd)"; cd "$V"
 IDS="$@"; [ -z "$IDS" ] && IDS=$(ls refactorings)
 PROPS="C01 C02 C03 C04 C05 C06 C07 C08 C09 C10 C11 C12 C13 C14 C15 C16 C18 C19 C20"
 for id in $IDS; do
   S=$(mktemp -d /tmp/ujvc-ref.XXXXXX); mkdir -p "$S/repo"; cp -r /repo/src "$S/repo/src"
-  ( cd "$S/repo" && patch -s -p1 < $V/refactorings/$id/patch.diff ) || { echo "$id: PATCH FAILED"; rm -rf "$S"; continue; }
+  ( cd "$S/repo" && patch -s -p1 < "$V/refactorings/$id/patch.diff" ) || { echo "$id: PATCH FAILED"; rm -rf "$S"; continue; }
+  echo $PROPS | tr ' ' '\n' | xargs -P 4 -I{} sh -c "UJVC_NO_REPLAY=1 UJVC_REPO_SRC='$S/repo/src' UJVC_EVID='$S/evid.{}' '$V/check' {} > '$S/out.{}' 2>&1; echo \$? > '$S/rc.{}'"
   out=""
   for pid in $PROPS; do
-    UJVC_NO_REPLAY=1 UJVC_REPO_SRC="$S/repo/src" UJVC_EVID="$S/evid" ./check $pid > "$S/out.$pid" 2>&1; rc=$?
-    if [ $rc -ne 0 ]; then out="$out $pid=$rc"; grep -E '^(VIOLATION|UNDECIDED|CRASH)' "$S/out.$pid" | sed "s#$S#<s>#g" | cut -c1-230 | head -3 > "$S/why.$pid"; fi
+    rc=$(cat "$S/rc.$pid")
+    if [ "$rc" != "0" ]; then out="$out $pid=$rc"; grep -E '^(VIOLATION|UNDECIDED|CRASH)' "$S/out.$pid" | sed "s#$S#<s>#g" | cut -c1-230 | head -3 > "$S/why.$pid"; fi
   done
-  echo "$id:${out:- all 0}"
+  deg=$(cat "$S"/out.* | grep -c '^DEGRADED')
+  echo "$id:${out:- all 0}  (degraded-to-bounded lines: $deg)"
   for f in "$S"/why.*; do [ -f "$f" ] && { echo "   [$(basename $f | sed 's/why.//')]"; sed 's/^/      /' "$f"; }; done 2>/dev/null | head -${REF_LINES:-14}
   rm -rf "$S"
 done
